@@ -16,7 +16,7 @@ import shutil
 
 from kernel import core, bfg
 
-NAMES = ['a', 'b', 'ab', 'cd', 'xy', 'abc', 'a.b', '.a', 'a.b.c', 's', 'subs']   # 'subs': a sibling of the submodule directory 'sub' whose name extends it
+NAMES = ['a', 'b', 'ab', 'cd', 'xy', 'abc', 'a.b', '.a', 'a.b.c', 's', 'sub', 'subs']   # 'subs': a sibling of the submodule directory 'sub' whose name extends it
 EXTS = ['.c', '.cpp']
 
 
